@@ -42,7 +42,9 @@ type emuWorld struct {
 	ref     *rvState
 	word    uint32
 	name    string
-	klo, khi *smt.Term // K is the address interval [klo, khi)
+	kmode   int                  // 0: nothing known, 1: a pattern per address, 2: everything
+	bases   []*smt.Term          // variant 1: accessed addresses ...
+	pats    []int                // ... and the pattern of known bytes chosen for each
 	arr     *smt.Term // current memory contents (abstract memory)
 	stored  []storedRange // ranges written during the step (known since)
 	regs0   map[string]bool
@@ -92,9 +94,62 @@ type storedRange struct {
 	n    int
 }
 
-// known0: the byte at x is known before the step (K is an arbitrary interval).
+// known0: the byte at x is known before the step. Variant 0: no byte is;
+// variant 2: every byte is; variant 1: for every address the step accesses
+// (registered by touch) one of six patterns of known bytes in the 16-byte
+// window at that address is chosen by a fork: none, all, offsets >= 2,
+// offsets < 2, offsets 1..2, offset 1 only; bytes outside the windows are
+// unknown.
 func (w *emuWorld) known0(x *smt.Term) *smt.Term {
-	return smt.And(smt.BVUle(w.klo, x), smt.BVUlt(x, w.khi))
+	switch w.kmode {
+	case 0:
+		return smt.False
+	case 2:
+		return smt.True
+	}
+	c := smt.False
+	for i, b := range w.bases {
+		d := smt.BVSub(x, b)
+		in := smt.BVUlt(d, smt.BVU(16, 64))
+		var pt *smt.Term
+		switch w.pats[i] {
+		case 0:
+			pt = smt.False
+		case 1:
+			pt = smt.True
+		case 2:
+			pt = smt.BVUle(smt.BVU(2, 64), d)
+		case 3:
+			pt = smt.BVUlt(d, smt.BVU(2, 64))
+		case 4:
+			pt = smt.And(smt.BVUle(smt.BVU(1, 64), d), smt.BVUlt(d, smt.BVU(3, 64)))
+		default:
+			pt = smt.Eq(d, smt.BVU(1, 64))
+		}
+		c = smt.Or(c, smt.And(in, pt))
+	}
+	return c
+}
+
+// touch registers an accessed address and chooses its pattern of known bytes.
+func (w *emuWorld) touch(addr *smt.Term) {
+	if w.kmode != 1 {
+		return
+	}
+	for _, b := range w.bases {
+		if b == addr {
+			return
+		}
+	}
+	pat := 5
+	for k := 0; k < 5; k++ {
+		if w.p.Decide(smt.Var(fmt.Sprintf("K0.pattern%d.is%d", len(w.bases), k), smt.Bool)) {
+			pat = k
+			break
+		}
+	}
+	w.bases = append(w.bases, addr)
+	w.pats = append(w.pats, pat)
 }
 
 // knownAt: the byte at x is known now (initially known, or stored since).
@@ -201,6 +256,7 @@ func (w *emuWorld) hook(p *sx.Path, fn *ssa.Function, args []sx.Val, site ssa.In
 	case "Load":
 		addr := args[1].(*smt.Term)
 		n, _ := sx.ConstInt(args[2])
+		w.touch(addr)
 		p.Assert("emulator/memory-access-within-address-space", "pre", nowrapTerm(addr, int(n)), "", "precondition of the memory contract (C14-C16): the accessed range does not wrap around 2^64")
 		all := smt.True
 		for i := int64(0); i < n; i++ {
@@ -229,6 +285,7 @@ func (w *emuWorld) hook(p *sx.Path, fn *ssa.Function, args []sx.Val, site ssa.In
 	case "Store":
 		addr := args[1].(*smt.Term)
 		n, _ := sx.ConstInt(args[3])
+		w.touch(addr)
 		p.Assert("emulator/memory-access-within-address-space", "pre", nowrapTerm(addr, int(n)), "", "precondition of the memory contract (C14-C16): the accessed range does not wrap around 2^64")
 		d := &ir.Den{T: c.IR, P: p, Env: w.preEnv()}
 		val := smt.Resize(d.Expr(args[2]), int(8*n))
@@ -240,6 +297,7 @@ func (w *emuWorld) hook(p *sx.Path, fn *ssa.Function, args []sx.Val, site ssa.In
 	case "Missing":
 		addr := args[1].(*smt.Term)
 		n, _ := sx.ConstInt(args[2])
+		w.touch(addr)
 		p.Assert("emulator/memory-access-within-address-space", "pre", nowrapTerm(addr, int(n)), "", "precondition of the memory contract (C14-C16): the accessed range does not wrap around 2^64")
 		// the maximal runs of unknown bytes (decided byte by byte)
 		imT := fn.Signature.Results().At(0).Type()
@@ -248,59 +306,18 @@ func (w *emuWorld) hook(p *sx.Path, fn *ssa.Function, args []sx.Val, site ssa.In
 		addIv := func(from, to int64) {
 			ivs = append(ivs, &sx.Struct{F: []sx.Val{at(addr, from), at(addr, to)}})
 		}
-		if len(w.stored) == 0 {
-			// the known bytes form one address interval: within the range
-			// they are the indices [s, e) for some 0 <= s <= e <= n
-			// (s == e: none); decide which
-			done := false
-			for s0 := int64(0); s0 <= n && !done; s0++ {
-				for e0 := s0; e0 <= n && !done; e0++ {
-					if s0 == e0 && s0 != 0 {
-						continue // the empty set is the case s = e = 0
-					}
-					cond := smt.True
-					for i := int64(0); i < n; i++ {
-						k := w.known0(at(addr, i))
-						if i >= s0 && i < e0 {
-							cond = smt.And(cond, k)
-						} else {
-							cond = smt.And(cond, smt.Not(k))
-						}
-					}
-					last := s0 == n-1+1 && e0 == n // never: handled by the fall-through below
-					_ = last
-					if p.DecideChecked(cond) {
-						if s0 > 0 || s0 == e0 {
-							if s0 == e0 {
-								addIv(0, n)
-							} else {
-								addIv(0, s0)
-							}
-						}
-						if e0 < n && s0 != e0 {
-							addIv(e0, n)
-						}
-						done = true
-					}
-				}
+		start := int64(-1)
+		for i := int64(0); i <= n; i++ {
+			unk := false
+			if i < n {
+				unk = !p.Decide(w.knownAt(at(addr, i)))
 			}
-			if !done {
-				p.Stop("infeasible")
+			if unk && start < 0 {
+				start = i
 			}
-		} else {
-			start := int64(-1)
-			for i := int64(0); i <= n; i++ {
-				unk := false
-				if i < n {
-					unk = !p.DecideChecked(w.knownAt(at(addr, i)))
-				}
-				if unk && start < 0 {
-					start = i
-				}
-				if !unk && start >= 0 {
-					addIv(start, i)
-					start = -1
-				}
+			if !unk && start >= 0 {
+				addIv(start, i)
+				start = -1
 			}
 		}
 		ms := sx.Zero(imT).(*sx.Struct)
@@ -421,9 +438,9 @@ func (c *Ctx) installEmuBuiltins(ev *spec.Eval, entries []rvEntry, prep *emuPrep
 	_ = exprT
 	// emu_world(entry, word, variant): see the file comment. variant 0: the
 	// emulator knows no register and no memory byte; 1: it knows every
-	// register the instruction names and the memory bytes of an arbitrary
-	// address interval [K0.lo, K0.hi); 2: it knows rs1 only and every
-	// memory byte.
+	// register the instruction names and, per accessed address, one of six
+	// patterns of memory bytes;
+	// 2: it knows rs1 only and every memory byte.
 	B["emu_world"] = func(ev *spec.Eval, a []ast.Expr) spec.TV {
 		e := entries[constArg(ev, a[0], "entry")]
 		words := emuWords(e, c.Tier)
@@ -438,14 +455,7 @@ func (c *Ctx) installEmuBuiltins(ev *spec.Eval, entries []rvEntry, prep *emuPrep
 		}
 		w = &emuWorld{c: c, p: p, ref: newRvState(64, "0"), word: words[wi], name: e.Name, regs0: map[string]bool{}}
 		w.ref.PC = smt.BVU(0x1000, 64)
-		// the known bytes: an arbitrary address interval [klo, khi)
-		w.klo, w.khi = smt.Var("K0.lo", smt.BV(64)), smt.Var("K0.hi", smt.BV(64))
-		switch variant {
-		case 0: // no memory byte is known
-			w.klo, w.khi = smt.BVU(0, 64), smt.BVU(0, 64)
-		case 2: // every memory byte (but the very last) is known
-			w.klo, w.khi = smt.BVU(0, 64), smt.BVU(^uint64(0), 64)
-		}
+		w.kmode = variant
 		w.arr = w.ref.MEM
 		p.Ghost["emu"] = w
 		p.Ghost["callhook"] = w.hook
@@ -812,8 +822,7 @@ func emuProp(id string, claim string, technique string, only func(name string) b
 				// a step explores at most a few hundred paths (the patterns of
 				// known bytes of its memory accesses); a change that
 				// multiplies them is reported instead of being explored
-				us.MaxPaths = 2500
-				us.Hooks = func(m *sx.Machine) { m.MaxExploreSecs = 240 }
+				us.MaxPaths = 2000
 				us.OnlyObl = only
 				us.AbstractArith = true
 				us.CallHook = func(p *sx.Path, fn *ssa.Function, args []sx.Val, site ssa.Instruction) (sx.Val, bool) {
